@@ -651,6 +651,25 @@ impl Mon {
             if !transacts || !v.ev.pre_of(bk).map(|s| s.is_writable).unwrap_or(false) {
                 continue;
             }
+            // only the bank(s) the instruction transacts with, i.e. the bank slot(s) of its declared
+            // accounts. Banks in the trailing risk accounts are read only by the instruction; they
+            // can still show up as writable here because the runtime marks an account writable for
+            // every instruction of a transaction as soon as one of them writes it (a receivership
+            // bracket withdraws from one bank and repays another in the same transaction).
+            let slots = declared_bank_slots(info.kind);
+            if !slots.is_empty() {
+                let declared: Vec<Pubkey> = slots.iter().filter_map(|i| v.ev.pre.get(*i).map(|s| s.key)).collect();
+                if declared.iter().any(|k| info.banks.iter().any(|(b, _, _)| b == k)) {
+                    if !declared.contains(bk) {
+                        self.r.count("C06.banks_in_the_risk_tail_not_judged");
+                        continue;
+                    }
+                } else {
+                    // the declared slot does not hold a bank: the account layout is not the one this
+                    // table was written for; fall back to judging every writable bank
+                    self.r.count("C06.declared_bank_slot_unrecognised");
+                }
+            }
             let g = match v.pre(&pre.group).and_then(group_of) {
                 Some(g) => g,
                 None => continue,
@@ -971,5 +990,17 @@ fn w_or1(x: &WrappedI80F48) -> Rat {
         one()
     } else {
         v
+    }
+}
+
+/// Index of the bank account(s) among the declared (non-remaining) accounts of the instructions
+/// that transact with a bank, in the order of the program's `Accounts` structs.
+fn declared_bank_slots(kind: Kind) -> &'static [usize] {
+    match kind {
+        Kind::Deposit | Kind::Withdraw | Kind::Borrow | Kind::Repay | Kind::CloseBalance => &[3],
+        Kind::AccrueInterest => &[1],
+        Kind::HandleBankruptcy => &[2],
+        Kind::Liquidate => &[1, 2],
+        _ => &[],
     }
 }
